@@ -17,6 +17,29 @@ pub use memory_map::{MemoryMapConfig, MemoryMapStats};
 #[cfg(feature = "mmap")]
 pub use memory_map::{MemoryMapManager, MemoryMappedArchive};
 
+/// Read exactly `len` bytes from the current position of `reader`.
+///
+/// `len` usually comes from a field of the archive, so it is compared with what is left of the
+/// stream before the buffer is allocated: a length that points past the end is an
+/// `UnexpectedEof` error, not an allocation of that size.
+pub(crate) fn read_exact_vec<R: Read + Seek>(reader: &mut R, len: u64) -> Result<Vec<u8>> {
+    let pos = reader.stream_position()?;
+    let end = reader.seek(SeekFrom::End(0))?;
+    reader.seek(SeekFrom::Start(pos))?;
+
+    if len > end.saturating_sub(pos) {
+        return Err(std::io::Error::new(
+            std::io::ErrorKind::UnexpectedEof,
+            format!("{len} bytes requested at offset {pos}, but the stream ends at {end}"),
+        )
+        .into());
+    }
+
+    let mut data = vec![0u8; len as usize];
+    reader.read_exact(&mut data)?;
+    Ok(data)
+}
+
 /// Trait for reading from MPQ archives
 pub trait MpqRead: Read + Seek {
     /// Read exact number of bytes at the given offset
